@@ -52,7 +52,32 @@ Definition C16_full : Prop := forall objs out,
    the netlist VALUE and the options alone: it has no state and returns no netlist, so a second composition of the
    same (unchanged) value writes the same document. That the real composer leaves the netlist alone is decided on
    the implementation (harness/purity_check.py). *)
-From SV Require Import Fmt.VDoc Fmt.VEmit Proofs.VEmitRound.
-Theorem C16_verilog_write_repeatable : forall o n (r1 r2 : wres vdoc), emit o n = r1 -> emit o n = r2 -> r1 = r2.
-Proof. exact emit_deterministic. Qed.
+From SV Require Fmt.VDoc Fmt.VEmit Proofs.VEmitRound.
+Theorem C16_verilog_write_repeatable : forall o n (r1 r2 : SV.Fmt.VEmit.wres SV.Fmt.VDoc.vdoc),
+  SV.Fmt.VEmit.emit o n = r1 -> SV.Fmt.VEmit.emit o n = r2 -> r1 = r2.
+Proof. exact SV.Proofs.VEmitRound.emit_deterministic. Qed.
 Print Assumptions C16_verilog_write_repeatable.
+
+(* ------------------------------------------------------------------------------------------ *)
+(* The whole-file writer model (Fmt/EdifEmit.v): the document is a function of the netlist value,
+   the timestamp fields and the program metadata, nothing else. After a write the value is in
+   dependency order ([ordered], evaluated on the value of every composed netlist of every C03 / C16
+   run together with prepass v = Some v); on such a value the pre-pass of the next write changes
+   nothing, so the second document is the first one up to the timestamp parameter. *)
+From SV Require Import Fmt.EdifFile Fmt.EdifEmit Proofs.EdifEmitProofs.
+
+Theorem C16_prepass_fixpoint : forall n, ordered n = true -> prepass n = Some n.
+Proof. exact prepass_ordered. Qed.
+Print Assumptions C16_prepass_fixpoint.
+
+Theorem C16_emit_second_write : forall ts prog fl n n1, prepass n = Some n1 -> ordered n1 = true ->
+  prepass n1 = Some n1 /\
+  forall n2, prepass n1 = Some n2 -> emit_file ts prog fl n2 = emit_file ts prog fl n1.
+Proof. exact emit_second_write. Qed.
+Print Assumptions C16_emit_second_write.
+
+(* NOT PROVED: the modelled reordering always ends in dependency order (needs the re-indexing of the
+   dependency function along the permutation; C16_reorder_is_sorted_permutation is the statement
+   on handles). With it, emit_file (prepass (prepass n)) = emit_file (prepass n) for every n. *)
+Definition C16_prepass_idempotent_full : Prop := forall n n1,
+  prepass n = Some n1 -> ordered n1 = true.
